@@ -112,8 +112,14 @@ class Env:
 # --------------------------------------------------------------------------- statements
 def gen_spec(rng):
     S = lambda: rng.choice(SYMBOLIC)  # noqa
-    k = rng.choice(["select", "select", "join", "subq", "union", "insert", "insert_select", "update", "delete", "ddl_create", "ddl_index", "ddl_drop", "create_all"])
+    k = rng.choice(["select", "select", "join", "subq", "union", "insert", "insert_select", "update", "delete", "ddl_create", "ddl_index", "ddl_drop", "create_all", "insertmany_sub", "insertmany_sub", "insertmany_plain"])
     sp = {"kind": k, "s1": S(), "s2": S(), "v": rng.randint(100, 900), "w": rng.randint(1, 4)}
+    if k.startswith("insertmany"):
+        n = rng.randint(2, 5)
+        base = 70 + rng.randint(0, 20)
+        sp["rows"] = [{"pid": base + i, "px": rng.randint(1, 99)} for i in range(n)]
+        sp["returning"] = rng.random() < 0.8
+        sp["page"] = rng.choice([None, None, 1, 2])
     return sp
 
 
@@ -134,6 +140,15 @@ def build(env, sp, tr):
         return sa.union_all(sa.select(t1.c.id, t1.c.x).where(t1.c.id <= w), sa.select(u2.c.id, u2.c.tid).where(u2.c.id >= w)).order_by(sa.text("1"), sa.text("2"))
     if k == "insert":
         return t1.insert().values(id=50 + w, x=v)
+    if k == "insertmany_sub":
+        # executemany on the insertmanyvalues path; the VALUES row holds a scalar subquery on a
+        # table of (possibly another) translated schema
+        t2b = t2.alias("tsub")
+        st = t1.insert().values(id=sa.bindparam("pid"), x=sa.select(sa.func.max(t2b.c.x)).scalar_subquery() + sa.bindparam("px"))
+        return st.returning(t1.c.id, t1.c.x) if sp.get("returning") else st
+    if k == "insertmany_plain":
+        st = t1.insert().values(id=sa.bindparam("pid"), x=sa.bindparam("px"))
+        return st.returning(t1.c.id, t1.c.x) if sp.get("returning") else st
     if k == "insert_select":
         return t1.insert().from_select(["id", "x"], sa.select(u2.c.id + 60, u2.c.tid + v).where(u2.c.id <= w))
     if k == "update":
@@ -174,7 +189,7 @@ def translate(m):
     return tr
 
 
-def run_step(env, stmt, m, cold=False):
+def run_step(env, stmt, m, cold=False, params=None, page=None):
     """execute inside BEGIN..ROLLBACK on a fresh Connection (same DBAPI connection,
     same engine cache); -> dict(status, sql, rows, snap)"""
     opts = {}
@@ -182,6 +197,8 @@ def run_step(env, stmt, m, cold=False):
         opts["schema_translate_map"] = dict(m)
     if cold:
         opts["compiled_cache"] = None
+    if page:
+        opts["insertmanyvalues_page_size"] = page
     out = {}
     with env.engine.connect() as c:
         env.conn = c
@@ -193,8 +210,8 @@ def run_step(env, stmt, m, cold=False):
                 stmt[1].metadata.create_all(cc, tables=[stmt[1]])
                 out["rows"] = None
             else:
-                r = cc.execute(stmt)
-                out["rows"] = [tuple(x) for x in r.fetchall()] if r.returns_rows else None
+                r = cc.execute(stmt, params) if params is not None else cc.execute(stmt)
+                out["rows"] = sorted(tuple(x) for x in r.fetchall()) if (r.returns_rows and params is not None) else ([tuple(x) for x in r.fetchall()] if r.returns_rows else None)
             out["sql"] = [s for s, _ in env.log]
             out["snap"] = env.snapshot()
             out["status"] = "ok"
@@ -349,10 +366,11 @@ def check_history(ctx, env, specs, hist, corr, record=True):
     finals = []
     for i, m in hist:
         sp = specs[i]
-        warm = run_step(env, stmts[i], m)
-        cold = run_step(env, stmts[i], m, cold=True)
+        prm = [dict(r) for r in sp["rows"]] if "rows" in sp else None
+        warm = run_step(env, stmts[i], m, params=prm, page=sp.get("page"))
+        cold = run_step(env, stmts[i], m, cold=True, params=prm, page=sp.get("page"))
         direct_stmt = build(env, sp, translate(m))
-        ref = run_step(env, direct_stmt, None, cold=True)
+        ref = run_step(env, direct_stmt, None, cold=True, params=prm, page=sp.get("page"))
         finals.append(warm)
 
         def viol(failure, detail):
@@ -385,7 +403,7 @@ def check_history(ctx, env, specs, hist, corr, record=True):
             sym = [compile_sym(env, st, {None: "zq", "zz": "zq"}) for st in stmts]
         except Exception:
             sym = None
-        if sym is not None and all(not isinstance(st, tuple) for st in stmts):
+        if sym is not None and all(not isinstance(st, tuple) for st in stmts) and not any("rows" in sp for sp in specs):
             stmt_fields = [segs_of(s) for s in sym]
             for st, sf in zip(stmts, stmt_fields):
                 for mode, mm in (("direct", None), ("sym0", {"zz": "zq"})):
@@ -406,7 +424,17 @@ def check_history(ctx, env, specs, hist, corr, record=True):
                 # DDL is compiled afresh on every execution (never cached): give each DDL step its own statement id
                 fields = list(stmt_fields)
                 steps = []
+                # structurally equal statements share ONE compiled-cache entry: same model id
+                canon = {}
+                sid_of = []
+                for j, st_ in enumerate(stmts):
+                    try:
+                        kk = st_._generate_cache_key().key
+                    except Exception:
+                        kk = ("nokey", j)
+                    sid_of.append(canon.setdefault(kk, j))
                 for i, m in hist:
+                    i = sid_of[i] if not specs[i]["kind"].startswith("ddl") else i
                     if specs[i]["kind"].startswith("ddl"):
                         fields.append(stmt_fields[i])
                         steps.append("%d@%s" % (len(fields) - 1, map_field(m)))
@@ -464,7 +492,7 @@ def run(ctx, deep=False):
     scanner_corr(ctx, 30000 if thorough else 5000)
     env = Env()
     corr = {"cases": [], "impl": [], "req": [], "post": []} if ctx.driver_ok() else None
-    n = 3000 if thorough else 350
+    n = 3000 if thorough else 220
     for h in range(n):
         specs = [gen_spec(ctx.rng) for _ in range(ctx.rng.randint(1, 3))]
         consistent = ctx.rng.random() < 0.85
